@@ -228,3 +228,24 @@ def lemma_instance(reg, ev, name, args_env, st):
         post.append(g)
         sides_all += sides
     return pre, post, sides_all
+
+
+def compile_axioms(reg, ev):
+    out = []
+    for name, vars_, body, pats in reg.axioms:
+        env, zs = {}, []
+        for pn, pt in vars_:
+            v, z = formal('A_' + pn, pt)
+            env[pn] = v
+            zs += z
+        st = State(env=env)
+        g, sides = ev.spec_bool(body, st, env=env)
+        if sides:
+            raise ValueError('axiom %s needs side definitions' % name)
+        ps = []
+        for p in pats:
+            terms = p if isinstance(p, (list, tuple)) else [p]
+            ts = [ev.ev1(ast.parse(t, mode='eval').body, State(env=env)).z for t in terms]
+            ps.append(z3.MultiPattern(*ts) if len(ts) > 1 else ts[0])
+        out.append(z3.ForAll(zs, g, patterns=ps) if zs else g)
+    return out
